@@ -192,6 +192,8 @@ class RecordingGen:
         self.log.append(("shuffle", self.who, [int(v) for v in x]))
 
     def __getattr__(self, name):
+        if name in ("g", "log", "who", "q", "m") or name.startswith("__"):
+            raise AttributeError(name)          # not yet initialised (unpickling)
         return getattr(self.g, name)
 
 
